@@ -1,6 +1,7 @@
 import UvModel.Lemmas.LoopRunInv
 import UvModel.Lemmas.LoopPhases2
 import UvModel.Lemmas.LoopPhases3
+import UvModel.Lemmas.LoopPhases4
 /-!
   C03 — phase order and blocking rules, over the LoopModel.
 -/
@@ -197,6 +198,36 @@ theorem watcher_once : watcher_once_statement := by
   intro sc k s id hn
   exact Phases.runWatchers_cnt (fun e => match e with | .cb _ kk i _ _ => kk == wCb k && i == id | _ => false)
     (fun _ _ => rfl) (fun _ => rfl) rfl k id (fun _ _ _ _ _ => rfl) sc s hn
+
+/-- `watcher_once`, the "exactly once" half: an idle/prepare/check handle that is in the loop list when its phase
+    starts, whose record exists, and that no callback running in the phase stops or closes (= it stays ACTIVE from
+    the first to the last event of its phase) is called exactly once in that phase — whatever else the callbacks
+    do (stop / restart / close other watchers, start new ones, …). -/
+theorem watcher_exactly_once (sc : Script) (k : WKind) (s : State) (id : Nat) (hn : (wList s k).Nodup)
+    (hh : s.halted = false) (hm : id ∈ wList s k) (hp : (getH s id).isSome)
+    (hsc : ∀ key occ g, ∀ o ∈ sc key occ g, o ≠ Op.stop id ∧ o ≠ Op.close id) :
+    ((runWatchers sc k s).trace.filter (fun e => match e with
+      | .cb _ kk i _ _ => kk == wCb k && i == id | _ => false)).length =
+    (s.trace.filter (fun e => match e with | .cb _ kk i _ _ => kk == wCb k && i == id | _ => false)).length + 1 :=
+  Phases.runWatchers_cnt_eq (fun e => match e with | .cb _ kk i _ _ => kk == wCb k && i == id | _ => false)
+    (fun _ _ => rfl) (fun _ => rfl) rfl k id (fun _ _ _ _ _ => rfl) sc hsc s hn hh hm ((getH_isSome_iff s id).mp hp)
+
+/-- the same theorem under the name used in the work plan -/
+theorem watcher_once_exactly (sc : Script) (k : WKind) (s : State) (id : Nat) (hn : (wList s k).Nodup)
+    (hh : s.halted = false) (hm : id ∈ wList s k) (hp : (getH s id).isSome)
+    (hsc : ∀ key occ g, ∀ o ∈ sc key occ g, o ≠ Op.stop id ∧ o ≠ Op.close id) :
+    ((runWatchers sc k s).trace.filter (fun e => match e with
+      | .cb _ kk i _ _ => kk == wCb k && i == id | _ => false)).length =
+    (s.trace.filter (fun e => match e with | .cb _ kk i _ _ => kk == wCb k && i == id | _ => false)).length + 1 :=
+  watcher_exactly_once sc k s id hn hh hm hp hsc
+
+/-- two idle handles; the callback of the first stops and restarts the *other* one: handle 3 is never stopped, it
+    is called exactly once -/
+example :
+    let s0 := ([Op.init .idle, .init .idle, .start 2 0 0, .start 3 0 0].foldl stepOp (initLoop 0 false []))
+    let sc : Script := fun key occ _ => if key = .h 3 ∧ occ = 0 then [.stop 2, .start 2 0 0] else []
+    ((runWatchers sc .idle s0).trace.filter (fun e => match e with
+      | .cb _ kk i _ _ => kk == wCb .idle && i == 3 | _ => false)).length = 1 := by decide
 
 /-- `phase_order`: within one loop iteration the callbacks come phase by phase — pending, idle, prepare, poll,
     pending (again), check, closing, timers — for every script, mode and sequence of poll results -/
